@@ -130,7 +130,7 @@ def check_c10(tier, seed):
         rc = 2
     cov = dict(states=mc.distinct, transitions=mc.generated, traces_validated_against_impl=ok,
                samples=[{"schedule": [[o["op"], o["th"], o["e"]] for o in sched[0]], "alive_after_each_op": [o["alive"] for o in sched[0]]}],
-               exhaustive=mc.complete, inductive_invariant=ind, schedules_replayed=len(sched), stress=dict((k, stress[k]) for k in ("rounds", "entities", "gcs", "held_checks")),
+               exhaustive=mc.complete, inductive_invariant=ind, schedules_replayed=len(sched), stress=dict((k, stress[k]) for k in ("rounds", "entities", "gcs", "held_checks", "aligned_drops")),
                constants={k: (sorted(v) if isinstance(v, set) else v) for k, v in consts.items()})
     ev = dict(property_id="C10", tier=tier, seed=seed, level="model_checking", coverage=cov,
               assumptions=["Arc strong-count decrement and crossbeam send/try_recv are linearizable",
